@@ -396,6 +396,16 @@ fn case_properties(t: &mut Tape, st: &mut Stats) -> Verdict {
     for _ in 0..n {
         m.insert(prop_text(t), prop_text(t));
     }
+    // sometimes a value (or key) is the text of the handle of another live collection: in a properties map it is text
+    let other = if t.chance(1, 8) { val(&exec(&mut ctx, "array", &["x".to_string()])).flatten() } else { None };
+    if let Some(o) = &other {
+        if t.flip() {
+            m.insert("ref".to_string(), o.clone());
+        } else {
+            m.insert(o.clone(), "named-by-a-handle".to_string());
+        }
+        st.class("properties-value-or-key-that-is-a-live-handle");
+    }
     let before = handles(&ctx);
     let h = val(&exec(&mut ctx, "map", &[])).flatten().unwrap();
     for (i, (k, v)) in m.iter().enumerate() {
@@ -476,7 +486,7 @@ pub fn property() -> Property {
             Section { name: "hex", plan: |t| match t { Tier::Quick => Plan::Random { cases: 40_000, max_len: 6 }, Tier::Thorough => Plan::Random { cases: 2_000_000, max_len: 6 } }, case: case_hex, min_classes: &[] },
             Section { name: "json", plan: |t| match t { Tier::Quick => Plan::Random { cases: 60_000, max_len: 400 }, Tier::Thorough => Plan::Skip }, case: case_json_q, min_classes: &[("json-depth-2", 5000), ("json-with-null", 5000), ("json-hazardous-key", 5000), ("json-string-that-looks-like-a-handle-or-a-scalar", 3000), ("json-output-variable-holds-an-earlier-document", 5000), ("json-nested-deeper-than-64", 200), ("json-with-over-1000-members", 200)] },
             Section { name: "json-deep", plan: |t| match t { Tier::Quick => Plan::Skip, Tier::Thorough => Plan::Random { cases: 4_000_000, max_len: 1500 } }, case: case_json_t, min_classes: &[] },
-            Section { name: "properties", plan: |t| match t { Tier::Quick => Plan::Random { cases: 60_000, max_len: 160 }, Tier::Thorough => Plan::Random { cases: 4_000_000, max_len: 200 } }, case: case_properties, min_classes: &[("properties-latin1-range", 2000), ("properties-astral", 2000), ("properties-edge-space", 2000), ("properties-refused-load-before-the-read-back", 5000)] },
+            Section { name: "properties", plan: |t| match t { Tier::Quick => Plan::Random { cases: 60_000, max_len: 160 }, Tier::Thorough => Plan::Random { cases: 4_000_000, max_len: 200 } }, case: case_properties, min_classes: &[("properties-latin1-range", 2000), ("properties-astral", 2000), ("properties-edge-space", 2000), ("properties-refused-load-before-the-read-back", 5000), ("properties-value-or-key-that-is-a-live-handle", 3000)] },
         ],
         probes: vec![],
     }
